@@ -109,15 +109,23 @@ Definition load_tile_coords (ly : layer) (cached : list coord) (cs : list (optio
   map ERead req ++ map EProbe req ++ flat_map (create_meta ly) metas.
 
 (* ---- TileServiceGrid.internal_tile_coord *)
-Definition internal_level (ly : layer) (use_profiles : bool) (z : Z) : Z :=
-  let z1 := if use_profiles && lskip_first ly then z + 1 else z in
-  if lskip_odd ly then z1 * 2 else z1.
+(* how a service reads the public level: (use_profiles, all_levels).  TMS counts the levels of a global profile
+   from the second one; WMTS (all four request kinds, all_levels = True) addresses every level of the grid, the
+   other services see every second level of a sqrt2 grid *)
+Definition level_mode := (bool * bool)%type.
+Definition mode_tms : level_mode := (true, false).
+Definition mode_plain : level_mode := (false, false).
+Definition mode_wmts : level_mode := (false, true).
 
-Definition internal_tile_coord (ly : layer) (use_profiles : bool) (x y z : Z) : option coord :=
+Definition internal_level (ly : layer) (use_profiles : level_mode) (z : Z) : Z :=
+  let z1 := if fst use_profiles && lskip_first ly then z + 1 else z in
+  if lskip_odd ly && negb (snd use_profiles) then z1 * 2 else z1.
+
+Definition internal_tile_coord (ly : layer) (use_profiles : level_mode) (x y z : Z) : option coord :=
   if z <? 0 then None else limit_tile (lg ly) x y (internal_level ly use_profiles z).
 
 (* TileLayer._internal_tile_coord: request origin None / Some false = 'sw' / Some true = 'nw' *)
-Definition request_tile_coord (ly : layer) (use_profiles : bool) (origin : option bool) (x y z : Z) : option coord :=
+Definition request_tile_coord (ly : layer) (use_profiles : level_mode) (origin : option bool) (x y z : Z) : option coord :=
   match internal_tile_coord ly use_profiles x y z with
   | None => None
   | Some (x', y', l) =>
@@ -144,7 +152,7 @@ Definition dimension_ok (rdims : list (Z * Z)) (d : Z * (list Z * Z)) : bool :=
 Definition dimensions_ok (ly : layer) (rdims : list (Z * Z)) : bool := forallb (dimension_ok rdims) (ldims ly).
 
 (* TileLayer.render *)
-Definition render (ly : layer) (cached : list coord) (use_profiles : bool) (origin : option bool)
+Definition render (ly : layer) (cached : list coord) (use_profiles : level_mode) (origin : option bool)
            (fmt : Z) (rdims : list (Z * Z)) (x y z : Z) : answer * list effect :=
   if negb (fmt =? lfmt ly) then (Err InvalidFormat, [])
   else match request_tile_coord ly use_profiles origin x y z with
@@ -168,7 +176,7 @@ Record treq := mkReq {
 }.
 
 Definition featureinfo (ly : layer) (origin : option bool) (q : treq) (x y z : Z) : answer * list effect :=
-  match request_tile_coord ly false origin x y z with
+  match request_tile_coord ly mode_wmts origin x y z with
   | None => (Err OutOfRange, [])
   | Some (x', y', l) =>
     if negb (dimensions_ok ly (rdims q)) then (Err InvalidDimension, [])   (* checked_dimensions, as GetTile *)
@@ -186,9 +194,9 @@ Definition serve_tile (ly : layer) (cached : list coord) (q : treq) : answer * l
     | Some x, Some y, Some z, Some f =>
       if negb (rlayer_ok q && rset_ok q) then (Err UnknownLayer, [])   (* layers are keyed (layer, grid name) *)
       else match rsvc q with
-           | TMS => render ly cached true (Some false) f [] x y z
-           | Tiles => render ly cached false (rorigin q) f [] x y z
-           | _ => render ly cached false (Some false) f [] x y z
+           | TMS => render ly cached mode_tms (Some false) f [] x y z
+           | Tiles => render ly cached mode_plain (rorigin q) f [] x y z
+           | _ => render ly cached mode_plain (Some false) f [] x y z
            end
     | _, _, _, _ => (Err BadRequest, [])
     end
@@ -201,7 +209,7 @@ Definition serve_tile (ly : layer) (cached : list coord) (q : treq) : answer * l
         if negb (rlayer_ok q && wmts_layer_ok ly) then (Err UnknownLayer, [])
         else if negb (rset_ok q) then (Err UnknownMatrixSet, [])
         else match rsvc q with
-             | WmtsKvp => render ly cached false (Some true) f (rdims q) x y z
+             | WmtsKvp => render ly cached mode_wmts (Some true) f (rdims q) x y z
              | _ => if negb (rinfo_ok q) then (Err UnknownInfoFormat, [])
                     else featureinfo ly (Some true) q x y z
              end
@@ -215,7 +223,7 @@ Definition serve_tile (ly : layer) (cached : list coord) (q : treq) : answer * l
       else if negb (rlayer_ok q && wmts_layer_ok ly) then (Err UnknownLayer, [])
       else if negb (rset_ok q) then (Err UnknownMatrixSet, [])
       else match rsvc q with
-           | WmtsRest => render ly cached false (Some true)
+           | WmtsRest => render ly cached mode_wmts (Some true)
                                 (match rfmt q with Some f => f | None => lfmt ly end) (rdims q) x y z
            | _ => if negb (rinfo_ok q) then (Err UnknownInfoFormat, [])
                   else featureinfo ly None q x y z
